@@ -59,6 +59,28 @@ def histStep {σ : Type} (h : List (HRec σ)) : Call σ → List (HRec σ)
 /-- the history of a cascade object after a sequence of calls -/
 def histAfter {σ : Type} (cs : List (Call σ)) : List (HRec σ) := cs.foldl histStep []
 
+/-- the counters behind `get_statistics()`: `_runs_count`, `_successful_runs`, `_failed_runs` -/
+structure Stats where
+  runs : Nat
+  ok : Nat
+  bad : Nat
+  deriving Repr, DecidableEq
+
+/-- did the call report success? (a fork of an empty cascade raises: it reports nothing) -/
+def callSucceeded {σ : Type} : Call σ → Option Bool
+  | .run cfg st x => some (result cfg st x).success
+  | .prun st x => (runParallel st x).map (·.success)
+
+/-- every call is counted when it starts; when it has a result, as successful or failed by that result's flag (before
+    `on_cascade_complete` is called: counted also when that observer raises) -/
+def statsStep {σ : Type} (s : Stats) (c : Call σ) : Stats :=
+  match callSucceeded c with
+  | none => ⟨s.runs + 1, s.ok, s.bad⟩
+  | some true => ⟨s.runs + 1, s.ok + 1, s.bad⟩
+  | some false => ⟨s.runs + 1, s.ok, s.bad + 1⟩
+
+def statsAfter {σ : Type} (cs : List (Call σ)) : Stats := cs.foldl statsStep ⟨0, 0, 0⟩
+
 /-- the stage `add_agent_stage` registers: `express` is what the agent does with the (wrapped) signal -/
 def agentStage {σ : Type} (cp : Option (σ → Out Bool)) (express : σ → Out σ) (amp : Rat) : Stage σ :=
   ⟨cp, express, none, true, amp⟩
